@@ -29,6 +29,7 @@ from .common import case, guarded
 from . import c01, c08
 
 ID = "C16"
+COVER_FILES = ['instances/preflibinstance/ordinal.py', 'instances/preflibinstance/categorical.py', 'instances/preflibinstance/instance.py']
 RULE = ("random ordinal (soc/soi/toc/toi) and categorical contents built as text from a recorded structure: "
         "1-6 alternatives, names drawn with repetition from a pool with generated-suffix look-alikes "
         "(X, X__1, X__2, X__1__1, '', __1, Y, Y__1), header ids distinct (85%) or repeated, 0-8 ballot lines drawn "
